@@ -6,7 +6,7 @@ from fractions import Fraction as Fr
 import mpmath
 import torch
 
-from agg_common import ask_agg, fr_list, maxabs, maxdiff, run_agg, tensor_to_fr
+from agg_common import ask_agg, fr_list, maxabs, maxdiff, refill_history, run_agg, tensor_to_fr
 from common import Ctx, TRUSTED_COMMON, sx
 from matrices import gram, m_int, m_svd, to_tensor, transpose, ulp
 
@@ -110,6 +110,16 @@ def one_case(ctx: Ctx, J, s, s2, dtype, exact_model: bool):
         if st != "ok":
             ctx.violation(f"{name} raised {x} on a finite matrix", rp)
             continue
+        if rng.random() < 0.25 and m >= 2:
+            # the value must be a function of the CONTENTS of the matrix: same tensor object, contents replaced
+            Jt2 = Jt[torch.tensor(rng.sample(range(m), m))] * torch.tensor([rng.choice([-1.0, 1.0, 2.0]) for _ in range(m)], dtype=dtype)[:, None]
+            how = rng.choice(["numpy", "data"])
+            msg = refill_history(lambda: cls(pref_vector=None if pt0 is None else pt0.clone(), norm_eps=norm_eps, reg_eps=reg_eps),
+                                 Jt, Jt2, 0, how)
+            ctx.count("refill_history", how)
+            if msg is not None:
+                ctx.violation(f"{name}: {msg}", {**rp, "check": "refill history", "second_contents": Jt2.tolist(), "how": how})
+                continue
         w_impl = tensor_to_fr(A.weighting(Jt))
         x_impl = tensor_to_fr(x)
         if 0.25 < ratio < 4:
